@@ -38,7 +38,7 @@ Next ==
     \/ \E a \in Addr : \E cf \in BOOLEAN :
           /\ (cf => "createfail" \in Ops)
           /\ (a = maxRev => signalled)
-          /\ Start(a, cf)
+          /\ \E cs \in (IF "clonefail" \in Ops THEN {"", "error"} ELSE {""}) : StartC(a, cf, cs)
     \/ \E a \in Addr : \E tk \in BOOLEAN :
           /\ (tk <=> (WOs(cmode) # {} /\ \A w \in WOs(cmode) : rrev[a] > rrev[w]))
           /\ AddCheck(a, tk)
